@@ -8,6 +8,7 @@ propagator.
 from __future__ import annotations
 
 import ast
+from fractions import Fraction
 from typing import Dict, List, Optional, Set, Tuple
 
 from oqv import abseval as ae
@@ -379,6 +380,185 @@ def h2_h3(prog: Program, chk: Check) -> None:
             same, "" if same else "stored and applied MPOs differ", m.ast)
 
 
+# --------------------------------------------------------------------- H4
+DIFF_OPERATORS = {"Jacobian", "Derivative", "Gradient", "nd.Jacobian", "nd.Derivative",
+                  "nd.Gradient", "numdifftools.Jacobian", "numdifftools.Derivative",
+                  "numdifftools.Gradient"}
+
+
+def _local_functions(fn: ast.AST) -> Dict[str, ast.AST]:
+    """name -> nested def / lambda bound to a local name directly inside fn."""
+    out = {}
+    for st in fn.body:
+        if isinstance(st, ast.FunctionDef):
+            out[st.name] = st
+        if isinstance(st, ast.Assign) and len(st.targets) == 1 \
+                and isinstance(st.targets[0], ast.Name) and isinstance(st.value, ast.Lambda):
+            out[st.targets[0].id] = st.value
+    return out
+
+
+def _fn_value(f: ast.AST, local_fns: Dict[str, ast.AST]) -> Optional[ast.AST]:
+    """The expression a one-expression local function / lambda evaluates to, with local
+    single assignments substituted (depth-limited)."""
+    if isinstance(f, ast.Name) and f.id in local_fns:
+        f = local_fns[f.id]
+    if isinstance(f, ast.Lambda):
+        return f.body
+    if isinstance(f, ast.FunctionDef):
+        rets = [x for x in walk_local(f) if isinstance(x, ast.Return) and x.value is not None]
+        if len(rets) != 1:
+            return None
+        env = {}
+        for st in f.body:
+            if isinstance(st, ast.Assign) and len(st.targets) == 1 \
+                    and isinstance(st.targets[0], ast.Name):
+                env[st.targets[0].id] = st.value
+        return _subst(rets[0].value, env)
+    return None
+
+
+def _subst(e: ast.AST, env: Dict[str, ast.AST], depth: int = 0) -> ast.AST:
+    import copy
+
+    class T(ast.NodeTransformer):
+        def visit_Name(self, n):
+            if isinstance(n.ctx, ast.Load) and n.id in env and depth < 6:
+                return _subst(copy.deepcopy(env[n.id]), env, depth + 1)
+            return n
+    return T().visit(copy.deepcopy(e))
+
+
+def _halfstep_form(e: ast.AST, local_fns: Dict[str, ast.AST], depth: int = 0):
+    """(part, exponent form) if e evaluates expm(LIOU * ...) possibly through local helper
+    calls and a trailing .real / .imag; the exponent is a form over LIOU and DT."""
+    part = None
+    if isinstance(e, ast.Attribute) and e.attr in ("real", "imag"):
+        part, e = e.attr, e.value
+    if isinstance(e, ast.Call) and isinstance(e.func, ast.Name) and e.func.id in local_fns \
+            and depth < 4:
+        v = _fn_value(e.func, local_fns)
+        if v is None:
+            return None
+        r = _halfstep_form(v, local_fns, depth + 1)
+        return None if r is None else (part or r[0], r[1])
+    if isinstance(e, ast.Call) and (dotted(e.func) or "").split(".")[-1] == "expm" and e.args:
+        def leaf(x):
+            if isinstance(x, ast.Call) and dotted(x.func) == "self.liouvillian" \
+                    and len(x.args) == 1 and isinstance(x.args[0], ast.Starred):
+                return Poly.sym("LIOU")
+            if isinstance(x, ast.Name) and x.id == "dt":
+                return Poly.sym("DT")
+            if isinstance(x, ast.Call) and isinstance(x.func, ast.Name) and x.func.id in local_fns:
+                v = _fn_value(x.func, local_fns)
+                return None if v is None else eval_form(v, leaf)
+            return None
+        return (part, eval_form(e.args[0], leaf))
+    return None
+
+
+def h4(prog: Program, chk: Check) -> None:
+    chk.rule("H4", "the propagator derivative handed to the adjoint pass comes from a "
+             "differentiation operator (numdifftools Jacobian / Derivative / Gradient) applied to "
+             "the same half-step propagator expm(L(p)*dt/2) that get_propagators uses in the "
+             "forward pass, real and imaginary part recombined as re + 1j*im; a hand-written "
+             "finite secant of the generator or propagator is not a derivative", floor=3)
+    gp = prog.unit("system:ParameterizedSystem.get_propagators")
+    fwd = []
+    for nu in prog.all_nested(gp):
+        if isinstance(nu.node, ast.FunctionDef):
+            env = {}
+            for st in nu.node.body:
+                if isinstance(st, ast.Assign) and len(st.targets) == 1 \
+                        and isinstance(st.targets[0], ast.Name):
+                    env[st.targets[0].id] = st.value
+            for name in ("first_step", "second_step"):
+                if name in env:
+                    r = _halfstep_form(_subst(env[name], env), {})
+                    fwd.append((name, r[1] if r else None))
+    forms = {repr(f) for _, f in fwd}
+    if len(fwd) != 2 or len(forms) != 1 or None in [f for _, f in fwd]:
+        raise AnalysisError(f"H4: forward half-step propagators not readable: {fwd}")
+    want = fwd[0][1]
+    chk.add("H4", gp, f"forward half-step propagators: expm({want}) for both halves",
+            want == Poly.sym("LIOU") * Poly.sym("DT") * Poly.const(Fraction(1, 2)),
+            f"exponent {want} (a half step is LIOU*DT/2)")
+    u = prog.unit("system:ParameterizedSystem.halfstep_propagator_derivative")
+    chk.saw(u)
+    local_fns = _local_functions(u.node)
+    ops = []
+    for st in u.node.body:
+        if isinstance(st, ast.Assign) and isinstance(st.value, ast.Call) \
+                and dotted(st.value.func) in DIFF_OPERATORS and len(st.targets) == 1 \
+                and isinstance(st.targets[0], ast.Name):
+            ops.append((st.targets[0].id, st.value))
+    # hand-written differences of evaluations at shifted parameter points
+    secants = []
+    for x in ast.walk(u.node):
+        if isinstance(x, ast.BinOp) and isinstance(x.op, ast.Sub):
+            def shifted_eval(e):
+                return isinstance(e, ast.Call) and isinstance(e.func, ast.Name) \
+                    and e.func.id in local_fns and e.args \
+                    and isinstance(e.args[0], ast.BinOp) and isinstance(e.args[0].op, (ast.Add, ast.Sub))
+            if shifted_eval(x.left) or shifted_eval(x.right):
+                secants.append(x)
+    divided = {id(d.left) for d in ast.walk(u.node)
+               if isinstance(d, ast.BinOp) and isinstance(d.op, ast.Div)}
+    for x in secants:
+        if id(x) in divided:
+            chk.add("H4", u, f"hand-written difference quotient {norm(x)[:50]}", None,
+                    "a difference quotient with an explicit step: its accuracy is a numerical "
+                    "question this rule does not decide", x)
+            continue
+        chk.add("H4", u, f"hand-written difference {norm(x)[:60]}", False,
+                "a finite secant of the generator / propagator replaces the derivative: exact "
+                "only where the Liouvillian is affine in the parameter", x)
+    if not ops:
+        if secants:
+            return
+        raise AnalysisError("H4: halfstep_propagator_derivative uses neither a differentiation "
+                            "operator from the table nor a recognisable finite difference")
+    parts = {}
+    for (name, call) in ops:
+        r = _halfstep_form(_fn_value(call.args[0], local_fns) if call.args else None, local_fns) \
+            if call.args else None
+        ok = r is not None and r[1] == want
+        chk.add("H4", u, f"{name} = {norm(call)[:60]}", ok,
+                f"differentiates expm({r[1] if r else None}) (forward pass: expm({want}))", call)
+        if r is not None:
+            parts[name] = r[0]
+    # recombination in the returned function
+    jf = [f for f in local_fns.values() if isinstance(f, ast.FunctionDef)
+          and any(isinstance(c, ast.Call) and isinstance(c.func, ast.Name) and c.func.id in parts
+                  for c in ast.walk(f))]
+    if len(jf) != 1:
+        raise AnalysisError("H4: the function that evaluates the Jacobians is not unique")
+    ret = [r for r in u.node.body if isinstance(r, ast.Return)]
+    ok_ret = len(ret) == 1 and isinstance(ret[0].value, ast.Name) and ret[0].value.id == jf[0].name
+    chk.add("H4", u, f"returns {norm(ret[0].value) if ret else '?'}", ok_ret,
+            "the function built from the differentiation operators is what is handed back")
+    if set(parts.values()) == {None}:
+        return
+    combos = [x for x in ast.walk(jf[0]) if isinstance(x, ast.BinOp) and isinstance(x.op, ast.Add)]
+    good = False
+    for x in combos:
+        def op_of(e):
+            return e.func.id if isinstance(e, ast.Call) and isinstance(e.func, ast.Name) \
+                and e.func.id in parts else None
+        l, r = x.left, x.right
+        for a, b in ((l, r), (r, l)):
+            if op_of(a) and parts[op_of(a)] == "real" and isinstance(b, ast.BinOp) \
+                    and isinstance(b.op, ast.Mult):
+                fac, oth = (b.left, b.right) if isinstance(b.left, ast.Constant) else (b.right, b.left)
+                if isinstance(fac, ast.Constant) and fac.value == 1j and op_of(oth) \
+                        and parts[op_of(oth)] == "imag" and norm(a.args[0]) == norm(oth.args[0]):
+                    good = True
+    chk.add("H4", u, "real and imaginary Jacobians recombined", good,
+            "" if good else "expected <Jacobian of the real part>(x) + 1j*<Jacobian of the "
+                            "imaginary part>(x) at the same point")
+
+
+
 def run(prog: Program, chk: Check) -> None:
     chk.explanation = (
         "Decides the index maps and the mirror structure of the adjoint method: H1 polynomial "
@@ -388,11 +568,13 @@ def run(prog: Program, chk: Check) -> None:
         "provenance, the environment order is read from the loop form inside _apply_pt_mpos "
         "under the constant `reverse` argument of each call, and bond legs are joined through "
         "the tracked edges; H3 the stored forward tensor / MPOs belong to the state the "
-        "differentiated propagators act on.")
+        "differentiated propagators act on; H4 the built-in propagator derivative is a "
+        "differentiation operator applied to the forward half-step propagator.")
     chk.not_decided = ("Numerical equality with finite differences; correctness of user-supplied "
-                       "or numdifftools derivatives.")
+                       "derivatives and the accuracy of numdifftools' adaptive differences.")
     chk.assumptions = ["tensornetwork: contraction puts the remaining edges of the first node "
                        "before those of the second (axis order depends on contraction order)",
                        "loop-direction idiom table (enumerate / reversed / [::-1] / .reverse())"]
     h1(prog, chk)
     h2_h3(prog, chk)
+    h4(prog, chk)
